@@ -729,6 +729,10 @@ def run_corpus(case):
     in_wires = [p.wire for p in obj.inPorts]
     first = [v & mask(w_.getWidth()) for v, w_ in zip(case['inputs'][0], in_wires)]
     vs = vlog.Sim(mods, mods[0].name, inputs=dict(zip(in_names, first)), guard=True)
+    # the internal state compared is every integer attribute of the object that the transpiler turned into a variable
+    # of the module (discovered from the emitted text, so that private attributes may be renamed or replaced freely)
+    stn = sorted(n for n, v in vars(obj).items() if isinstance(v, int) and not isinstance(v, bool) and n in vs.top.sigs
+                 and n not in in_names and n not in out_names)
     out_wires = [p.wire for p in obj.outPorts]
     changed = False
     prev = None
